@@ -314,9 +314,22 @@ def upper_flag(f):
 
 
 def rand_pcase(rng, focus=(), npairs=None):
-    f = lambda name, p: rng.random() < (0.75 if name in focus else p)
-    base, plant1 = S.rand_cfg(rng, focus)
-    base.info_file = False
+    def fprob(name, p):
+        # focus entries are option-group names (probability 0.75) or "name:probability"
+        for x in focus:
+            if x == name:
+                return 0.75
+            if x.startswith(name + ":"):
+                return float(x.split(":", 1)[1])
+        return p
+    f = lambda name, p: rng.random() < fprob(name, p)
+    base, plant1 = S.rand_cfg(rng, tuple(x for x in focus if ":" not in x))
+    # --info-file / --rest-file / --wildcard-file see R1 only and must not influence what happens to the pair
+    base.info_file = bool(base.adapters) and f("sidefiles", 0.1)
+    if any("..." in spec for _, spec in base.adapters):
+        base.side_files = ()
+    elif base.info_file and rng.random() < 0.5:
+        base.side_files = tuple(k for k in ("rest", "wildcard") if rng.random() < 0.6)
     base.max_ee = base.max_aer = None
     if isinstance(base.max_n, float):
         base.max_n = None
@@ -343,6 +356,8 @@ def rand_pcase(rng, focus=(), npairs=None):
         base.too_long_output = False
     plant2 = []
     nad2 = rng.choice([0, 0, 1, 1, 2]) if base.adapters or rng.random() < 0.5 else 0
+    if f("adapters2", 0.0):
+        nad2 = rng.choice([1, 2, 2, 3])
     if f("pair_adapters", 0.12) and base.adapters and not base.revcomp:
         p.pair_adapters = True
         base.times = 1
@@ -396,8 +411,13 @@ def rand_pcase(rng, focus=(), npairs=None):
         name = a[0].split("/")[0]
         # mates carry the same id (R2 may have a different comment)
         cname = name if rng.random() < 0.7 or " " not in name else name.split()[0] + " 2:N:0:ACGT"
+        if (base.info_file or base.side_files) and plant1 and rng.random() < 0.3:
+            # R1 consists of one adapter only: trimmed to length zero, the pair must still reach the filters and the outputs
+            s = rng.choice(rng.choice(plant1))
+            a = (a[0], s, None if a[2] is None else "I" * len(s))
         pairs.append(((name, a[1], a[2]), (cname, c[1], c[2])))
-    if (p.pair_adapters and rng.random() < 0.5) or ("crossranks" in focus and rng.random() < 0.3):
+    pairactions = f("pairactions", 0.0)
+    if (p.pair_adapters and rng.random() < 0.5) or ("crossranks" in focus and rng.random() < 0.3) or pairactions:
         # several ranks of plain 3' adapters of different lengths, all planted in both mates (in random order): the ranks
         # compete, and the best rank for R1 alone need not be the best rank for R2 alone
         k = rng.choice([2, 2, 3])
@@ -407,10 +427,16 @@ def rand_pcase(rng, focus=(), npairs=None):
         p.adapters2 = tuple(("-A", "bd%d=%s" % (i, s)) for i, s in enumerate(a2))
         p.pair_adapters, base.times, base.revcomp, p.combinatorial = True, 1, False, False
         base.error_rate, base.overlap = rng.choice([None, 0.0, 0.2]), rng.choice([None, 3, 4])
-        if rng.random() < 0.7:
+        if pairactions:
+            # every action on a pair in which both mates carry the adapters (C03: retain and crop keep the documented interval)
+            base.action = rng.choice(S.ACTIONS)
+        if rng.random() < (0.3 if pairactions else 0.7):
+            act = base.action
             # nothing but the adapters touches the reads: the rank that trimmed each mate can be read off the output
             base.cuts, base.qcut, base.nextseq, base.length, base.trim_n, base.poly_a, base.action = (), None, None, None, False, False, "trim"
             p.cuts2, p.qcut2, p.length2 = (), None, None
+            if pairactions:
+                base.action = act
         new = []
         for (n1, s1, q1), (n2, s2, q2) in pairs:
             def stack(ads):
